@@ -112,10 +112,34 @@ def children(proj, path):
     return sorted(k for k in proj if k[0].startswith(pre) and "/" not in k[0][len(pre):])
 
 
+SWAP = {b"v1": b"v2", b"v2": b"v1", b"x": b"y", b"y": b"x", b"a": b"b", b"b": b"a", b"c": b"a", b"h1": b"h2", b"h2": b"h1", b"80": b"81", b"81": b"80",
+        b"0": b"1", b"1": b"7", b"7": b"0", b"42": b"24"}
+
+
+def same_size_variant(rng, tree):
+    """The same tree with some values replaced by others of the same length (the rendered file keeps its size)."""
+    out = []
+    for name, val in tree:
+        kind = val[0]
+        if kind == "obj":
+            val = ("obj", same_size_variant(rng, val[1]))
+        elif kind == "str" and val[1] in SWAP and rng.random() < 0.6:
+            val = ("str", SWAP[val[1]])
+        elif kind == "list" and rng.random() < 0.6:
+            val = ("list", [SWAP.get(x, x) for x in val[1]])
+        elif kind == "inaddr" and rng.random() < 0.6:
+            val = ("inaddr", SWAP.get(val[1], val[1]), SWAP.get(val[2], val[2]))
+        out.append((name, val))
+    return out
+
+
 def make_case(seed, i):
     rng = random.Random("c15/%d/%d" % (seed, i))
     n = rng.choice([1, 2, 2, 3, 3, 4, 5])
     files = [gen_file(rng) for _ in range(n)]
+    for k in range(1, n):
+        if rng.random() < 0.3:
+            files[k] = same_size_variant(rng, files[k - 1])   # an edit that keeps the file's size
     if rng.random() < 0.25 and n >= 2:
         files[-1] = files[rng.randrange(n - 1)]          # return to an earlier file
     if rng.random() < 0.15:
@@ -139,16 +163,27 @@ def _worker(a):
             n = len(files)
             texts = [confgen.render_conservative(f) if f else b"// nothing\n" for f in files]
             paths = [b.add_file(t) for t in texts]
+            # every second history loads ONE path that is overwritten in place before each load (same inode, often the same
+            # size and modification second) - the way a configuration file is edited and re-read
+            live = (paths[0] + ".live") if i % 2 else None
+            # a file that does not parse, loaded between the good ones in some histories: it must change nothing, also not later
+            rngb = random.Random("c15b/%d/%d" % (seed, i))
+            bad_at = rngb.randrange(n) if (n >= 2 and rngb.random() < 0.3) else None
+            badp = b.add_file(texts[rngb.randrange(n)] + b'\nzz_bad { "\n') if bad_at is not None else None
             cmds = []
             for li in range(n):
                 cmds += [r[0] for r, p in zip(regs, points) if p == li]
-                cmds += ["HOOKS", "DUMP", "LOAD " + confgen.pct(paths[li]), "DUMP", "HOOKS"]
+                if li == bad_at and li > 0:
+                    cmds += (["COPY " + confgen.pct(badp) + " " + confgen.pct(live)] if live else []) + ["XLOAD " + confgen.pct(live or badp)]
+                if live:
+                    cmds += ["COPY " + confgen.pct(paths[li]) + " " + confgen.pct(live)]
+                cmds += ["HOOKS", "DUMP", "LOAD " + confgen.pct(live or paths[li]), "DUMP", "HOOKS"]
             cmds += [r[0] for r, p in zip(regs, points) if p == n]
-            cmds += ["DUMP", "HOOKS", "LOAD " + confgen.pct(paths[-1]), "DUMP", "HOOKS"]
+            cmds += ["DUMP", "HOOKS", "LOAD " + confgen.pct(live or paths[-1]), "DUMP", "HOOKS"]
             b.case("h%d" % i, cmds)
             b.case("b%d" % i, [r[0] for r in regs] + ["LOAD " + confgen.pct(paths[-1]), "DUMP"])
             b.case("a%d" % i, ["LOAD " + confgen.pct(paths[-1])] + [r[0] for r in regs] + ["DUMP"])
-            meta[i] = (files, regs, points, texts)
+            meta[i] = (files, regs, points, texts, bad_at is not None and bad_at > 0)
         recs, r = b.run()
     finally:
         b.cleanup()
@@ -156,7 +191,7 @@ def _worker(a):
     out = []
     stats = {"sequences": 0, "loads": 0, "reload_pairs_compared": 0, "registered_value_changes": 0, "hook_deliveries_seen": 0,
              "idempotent_reloads": 0, "object_membership_changes": 0, "leak_checks": 0}
-    for i, (files, regs, points, texts) in meta.items():
+    for i, (files, regs, points, texts, has_bad) in meta.items():
         n = len(files)
         wit = {"files": [t.decode("latin-1") for t in texts], "regs": [r[0] for r in regs], "points": points, "index": i}
         H, B, A = by.get("h%d" % i), by.get("b%d" % i), by.get("a%d" % i)
@@ -167,6 +202,10 @@ def _worker(a):
                 bad = True
                 continue
             for kind, func in hconf.case_crash_events(rec):
+                if kind == "leak" and has_bad and tag == "history":
+                    # the parser does not free what it was holding when it rejects a file; that is not judged (see C14)
+                    stats["leaks_after_rejected_file_not_judged"] = stats.get("leaks_after_rejected_file_not_judged", 0) + 1
+                    continue
                 txt = [s["text"] for s in rec.sanitizer if s["kind"] == kind]
                 out.append(("sanitizer", "%s|%s" % (kind, func), "%s run: %s in %s\nfiles:\n%s\nregs: %s\n%s" % (
                     tag, kind, func, "\n---\n".join(wit["files"]), wit["regs"], (txt[0] if txt else "")[:1800]), wit))
@@ -177,6 +216,14 @@ def _worker(a):
         stats["sequences"] += 1
         if bad:
             continue
+        if has_bad:
+            xl = [l for l in H.text if l.startswith("XLOAD rc=")]
+            stats["rejected_files_inside_histories"] = stats.get("rejected_files_inside_histories", 0) + len(xl)
+            if any(l == "XLOAD rc=0" for l in xl):
+                out.append(("harness", "harness", "a file meant to be rejected was accepted", wit))
+                continue
+        if i % 2:
+            stats["histories_rewriting_one_file_in_place"] = stats.get("histories_rewriting_one_file_in_place", 0) + 1
         stats["leak_checks"] += 3
         stats["loads"] += n + 1
         # --- history independence
@@ -253,7 +300,8 @@ def run(chk, tier, scale=1.0):
         files, regs, points = make_case(chk.seed, i)
         chk.add_case(vcommon.h([str(files), [r[0] for r in regs], points]), len(files) >= 2 or bool(regs))
     chk.rule = ("sequences of 1-5 valid files over 3 top-level objects x 6 child names x 4 kinds (nested to depth 3, occasional retyping, empty files, "
-                "returning to an earlier file) with a random registration set (typed/plain strings with NULL/empty/non-empty defaults, lists, host/service "
+                "returning to an earlier file, edits that keep the file size; every second history rewrites ONE path in place before each load; some histories "
+                "load a rejected file in between) with a random registration set (typed/plain strings with NULL/empty/non-empty defaults, lists, host/service "
                 "pairs, objects) registered at random points; oracle: final effective values equal those of two fresh processes (register-then-load, "
                 "load-then-register), reloading the last file changes nothing and runs no hook, every registered node whose effective value changed and "
                 "every registered object whose member set changed across a load appears in the hook log; ASan+LSan on; non-trivial = >=2 loads or >=1 registration")
